@@ -22,7 +22,7 @@ func init() {
 			return evid.Spec{ID: "C18", Level: "model_checking", Exhaustive: true,
 				Rule: "the C10 configuration with every password and both shared secrets replaced by unique VERIF_SEED-derived tokens; a recording logger implementing the handlers' logger interface (Infof/Errorf/Debugf/Record/Set) at all levels; " +
 					"configuration plane: 4 configurations (main; both scopes served from one keychain entry; a third scope sharing an entry; unassigned scope + unknown handler/provider types + duplicate user) each loaded alone and reloaded over each other, every call the loader makes on the logger searched for the shared secrets, then a login served; " +
-					"histories: depth <= 3 over the C10 core alphabet, depth 3 over the ASCII-login packets plus passwords containing a non-ASCII byte (which travel the decode-error paths), and depth 2 over the full alphabet (x 2 session ids), plus the full START product action{1,2,4} x type{1..6} x service{0,1,2} x minor{0,1} x first sequence number{1,3,255} carrying a password token (right and, for PAP, wrong) in data, alone and followed by a CONTINUE. " +
+					"histories: depth <= 3 over the C10 core alphabet, depth 3 over the ASCII-login packets plus passwords containing a non-ASCII byte (which travel the decode-error paths), blank and padded user names and the password that follows them, and depth 2 over the full alphabet (x 2 session ids), plus the full START product action{1,2,4} x type{1..6} x service{0,1,2} x minor{0,1} x first sequence number{1,3,255} carrying a password token (right and, for PAP, wrong) in data, alone and followed by a CONTINUE. " +
 					"A token counts as a presented password when it travels in the data of a START whose authen_type is PAP or in the CONTINUE answering GETPASS (a token sent anywhere else, e.g. typed as a user name, is dropped from the watch list for that history). " +
 					"Every call is also forwarded to the repository's own logger (cmds/server/log at debug level) writing into a buffer. Oracle after every packet: no watched token and no shared secret occurs in that output, in any formatted message, in any Record value whose key the same call does not list as obscured, in any field selected by key in a Set (retention) call, " +
 					"or in any reply handed to a response logger. states = distinct session-stage states; transitions = packets delivered",
@@ -228,7 +228,9 @@ func c18Run(c *Ctx) {
 	var extra []rPkt
 	for sid := 0; sid < 2; sid++ {
 		extra = append(extra, rPkt{Kind: "cont", Msg: e.Sec.Own + "\xe9", Sid: sid}, rPkt{Kind: "cont", Msg: "\xe9" + e.Sec.Group2, Sid: sid},
-			rPkt{Kind: "pap", User: "own", Pw: e.Sec.Own + "\xe9", Sid: sid}, rPkt{Kind: "start", Action: 1, AType: 2, Service: 1, Minor: 0, User: "own", Pw: e.Sec.Own + "\xe9", Sid: sid})
+			rPkt{Kind: "pap", User: "own", Pw: e.Sec.Own + "\xe9", Sid: sid}, rPkt{Kind: "start", Action: 1, AType: 2, Service: 1, Minor: 0, User: "own", Pw: e.Sec.Own + "\xe9", Sid: sid},
+			// user names that are nothing but white space, padded names, and the password that follows them
+			rPkt{Kind: "cont", Msg: " ", Sid: sid}, rPkt{Kind: "cont", Msg: "own ", Sid: sid}, rPkt{Kind: "cont", Msg: e.Sec.Own, Sid: sid}, rPkt{Kind: "ascii", User: " ", Sid: sid})
 	}
 	var core2 []rPkt
 	for _, p := range na {
